@@ -152,9 +152,9 @@ class CSSCharsetRule(cssrule.CSSRule):
             try:
                 if codecs.lookup(encoding).name == 'css':
                     raise LookupError()
-                # codecs which are no text encodings (e.g. ``hex``)
-                # cannot be used
-                ''.encode(encoding)
+                # codecs which are no text encodings (e.g. ``hex``) or do not
+                # support error handlers (``idna``) cannot be used
+                'a'.encode(encoding, 'replace')
             except (LookupError, UnicodeError):
                 self._log.error(
                     'CSSCharsetRule: Unknown (Python) encoding %r.' % encoding
